@@ -70,7 +70,9 @@ Inductive desc :=
 | DList (d : desc) (minlen maxlen : Z)        (* List(<trait>, minlen=, maxlen=): Python only; a member of Tuple / Either / Union *)
 | DRangeDyn (lo hi : Z) (mask : Z)            (* Range(low='lo', high='hi'): bounds are OTHER attributes of the instance (ids lo,
                                                  hi); validated against the instance state: see C01.Model.validate_s *)
-| DDict (kd vd : desc).                       (* Dict(<key trait>, <value trait>): Python only *)
+| DDict (kd vd : desc)                        (* Dict(<key trait>, <value trait>): Python only *)
+| DEnumDyn (src : Z).                         (* Enum(values='<name>'): the collection is ANOTHER attribute (id src) of the
+                                                 instance; validated / read against the instance state: C01.Model *)
 
 Inductive vres := Accept (w : pv) | Reject | Propagate (e : exn).
 
@@ -98,7 +100,7 @@ Fixpoint is_fast (d : desc) : bool :=
   | DTuple ds => negb (is_nil_pv ds)                 (* trait_types.py:2333-2348 *)
   | DCompound ds => existsb is_fast ds               (* trait_handlers.py:680-686 *)
   | DAny | DRangeI _ _ _ | DType _ _ | DString _ _ _ | DPrefixList _ | DPrefixMap _ | DUnion _
-  | DArray _ _ _ | DProperty _ | DVTuple _ _ | DList _ _ _ | DRangeDyn _ _ _ | DDict _ _ => false
+  | DArray _ _ _ | DProperty _ | DVTuple _ _ | DList _ _ _ | DRangeDyn _ _ _ | DDict _ _ | DEnumDyn _ => false
   end.
 
 (* ---------- ctraits.c:3535 in_float_range (reference; T2 regenerates it from the source) ---------- *)
@@ -492,6 +494,7 @@ Fixpoint c_validate (E : env) (d : desc) (v : pv) {struct d} : vres :=
   | DList d' mn mx => list_check (c_validate E d') mn mx v
   | DRangeDyn _ _ _ => Reject                   (* no instance here: the state-dependent validator is C01.Model.validate_s *)
   | DDict kd vd => dict_check (c_validate E kd) (c_validate E vd) v
+  | DEnumDyn _ => Reject                         (* no instance here: see C01.Model.validate_s *)
   end
 
 (* one case of the switch in validate_trait_complex; `Reject` = `break` (try the next item) *)
@@ -565,7 +568,7 @@ with c_case (E : env) (d : desc) (v : pv) {struct d} : vres :=
       | x => x
       end
   | DAny | DRangeI _ _ _ | DType _ _ | DString _ _ _ | DPrefixList _ | DPrefixMap _
-  | DUnion _ | DArray _ _ _ | DProperty _ | DVTuple _ _ | DList _ _ _ | DRangeDyn _ _ _ | DDict _ _ => Reject    (* never in the fast list *)
+  | DUnion _ | DArray _ _ _ | DProperty _ | DVTuple _ _ | DList _ _ _ | DRangeDyn _ _ _ | DDict _ _ | DEnumDyn _ => Reject    (* never in the fast list *)
   end
 
 with py_validate (E : env) (d : desc) (v : pv) {struct d} : vres :=
@@ -660,6 +663,7 @@ with py_validate (E : env) (d : desc) (v : pv) {struct d} : vres :=
   | DList d' mn mx => list_check (c_validate E d') mn mx v
   | DRangeDyn _ _ _ => Reject
   | DDict kd vd => dict_check (c_validate E kd) (c_validate E vd) v
+  | DEnumDyn _ => Reject
   end.
 
 (* ---------- well-formedness of a description (what the constructors can build) ---------- *)
